@@ -1,1 +1,1 @@
-    ensures (v@.len() == 0 || v@[0] != 0x23u8) ==> sloc(r) == l,
+    ensures sloc(r) == l,
